@@ -244,12 +244,3 @@ func c13(c *Ctx) {
 		c.Op(fmt.Sprintf("terms %d", h), fmt.Sprintf("%v %v %d %d", deputynode.IsSnapshotBlock(h), deputynode.IsRewardBlock(h), deputynode.GetSignerTermIndexByHeight(h), deputynode.GetDeputyTermIndexByHeight(h)))
 	}
 }
-
-func firstWord(s string) string {
-	for i := 0; i < len(s); i++ {
-		if s[i] == ' ' {
-			return s[:i]
-		}
-	}
-	return s
-}
